@@ -160,9 +160,8 @@ func specParamValue(pkg *PkgInfo, m Mode, p Param, sym *Term) Value {
 	ptr := strings.HasPrefix(name, "*")
 	name = strings.TrimPrefix(name, "*")
 	if pkg != nil {
-		if obj := pkg.Types.Scope().Lookup(name); obj != nil {
-			if tn, ok := obj.(*types.TypeName); ok {
-				t := tn.Type()
+		if t := lookupNamedType(pkg, name); t != nil {
+			{
 				if ptr {
 					return Value{T: types.NewPointer(t), K: KPtr, Loc: &Loc{Prefix: canonPrefix(t), Root: sym, T: t}}
 				}
